@@ -19,6 +19,7 @@ def expr_type(e, env, fns):
     k = e[0]
     if k == "lit": return e[1]
     if k == "bool": return "bool"
+    if k == "str": return "str"
     if k == "var": return env.get(e[1])
     if k == "bin":
         if e[1] in core.ARITH: return expr_type(e[2], env, fns)
@@ -246,7 +247,7 @@ def inject(prog, cls, rng):
             if core.is_struct(t):
                 init = ["slit", core.sid_of(t), [["lit", ft, 1] for ft in core.fields_of(t)]]
             else:
-                init = ["bool", True] if t == "bool" else ["lit", t, 1]
+                init = ["bool", True] if t == "bool" else (["str", "q"] if t == "str" else ["lit", t, 1])
             pos = rng.randrange(0, min(3, len(f["body"])) + 1)
             f["body"].insert(pos, ["let", x, t, init, rng.random() < 0.5])
             return m, (("method" if f.get("method") else "fn"), "receiver" if (f.get("method") and x == f["params"][0][0]) else "param", "let")
@@ -283,13 +284,13 @@ def inject(prog, cls, rng):
     if cls == "struct-missing-field":
         for s in esites:
             e = s.get()
-            if e[0] == "slit" and len(e[2]) > 0 and e[1] < core.NSTRUCT:      # fewer initialisers than a fixed array holds are legal
+            if e[0] == "slit" and len(e[2]) > 0 and not core.is_array_sid(e[1]):      # fewer initialisers than a fixed array holds are legal
                 e[2].pop(); return m, s.ctx + ("struct-literal",)
     if cls == "struct-extra-field":
         for s in esites:
             e = s.get()
             if e[0] == "slit":
-                e[2].append(["lit", "i32", 1]); return m, s.ctx + ("array-literal" if e[1] >= core.NSTRUCT else "struct-literal",)
+                e[2].append(["lit", "i32", 1]); return m, s.ctx + ("array-literal" if core.is_array_sid(e[1]) else "struct-literal",)
     if cls == "struct-mistyped-field":
         cands = []
         for s in esites:
@@ -400,7 +401,7 @@ def reference_rejects(name, muts, shard=300):
     ids = list(range(len(muts)))
     shards = [ids[i:i + shard] for i in range(0, len(ids), shard)]
     def one(k):
-        v = ["From Coq Require Import ZArith List.", "From FV Require Import Core.Syntax Core.Typing.", "Import ListNotations.",
+        v = ["From Coq Require Import String ZArith List.", "From FV Require Import Core.Syntax Core.Typing.", "Import ListNotations.",
              "Definition structs : structs_t := %s." % core.structs_coq(),
              "Definition cases : list (Z * prog) := ["]
         v.append(";\n".join("(%d%%Z, %s)" % (i, core.to_coq(muts[i])) for i in shards[k]))
